@@ -10,6 +10,9 @@ static void list_units(const std::string& tier)
         if (!th && !strcmp(sh,"S4") && k.range!='b') { printf("kind=%s,shape=%s,sel=fam0\n", k.name().c_str(), sh); continue; }
         printf("kind=%s,shape=%s,sel=%s\n", k.name().c_str(), sh, "all");
     }
+    // three levels: files whose nodes skip a middle level
+    for (const Kind& k : all_set_kinds()) printf("kind=%s,shape=S6,sel=%s\n", k.name().c_str(), k.range=='b' ? "all" : "fam0");
+    for (const Kind& k : all_rel_kinds()) printf("kind=%s,shape=S6,sel=fam0\n", k.name().c_str());
     for (const Kind& k : all_rel_kinds()) {
         printf("kind=%s,shape=S1,sel=all\n", k.name().c_str());
         printf("kind=%s,shape=S2,sel=%s\n", k.name().c_str(), k.range=='b' ? "all" : "fam0");
